@@ -1,6 +1,7 @@
 package sim
 
 import (
+	"strings"
 	"math/big"
 	"strconv"
 
@@ -96,7 +97,23 @@ func (w *World) doGov(in Intent) {
 	deposit := sdk.NewCoins(sdk.NewInt64Coin(hub.BondDenom, 10_000_000))
 	switch in.Op {
 	case "cold":
-		c := mhub2types.NewColdStorageTransferProposal(mhub2types.ChainID(in.Chain), sdk.NewCoins(sdk.NewCoin(in.Denom, sdkIntOf(in.Amt))))
+		coins := []sdk.Coin{sdk.NewCoin(in.Denom, sdkIntOf(in.Amt))}
+		seenDenom := map[string]bool{in.Denom: true}
+		for _, x := range in.Vals { // further coins "denom:amount" (a denom need not be bridged to that chain)
+			if i := strings.Index(x, ":"); i > 0 && !seenDenom[x[:i]] && sdk.ValidateDenom(x[:i]) == nil {
+				seenDenom[x[:i]] = true
+				coins = append(coins, sdk.NewCoin(x[:i], sdkIntOf(x[i+1:])))
+			}
+		}
+		for _, c := range coins {
+			if c.Amount.IsNil() || !c.Amount.IsPositive() {
+				return
+			}
+		}
+		if len(coins) > 1 {
+			w.St.Probe("cold-storage-several-coins")
+		}
+		c := mhub2types.NewColdStorageTransferProposal(mhub2types.ChainID(in.Chain), sdk.NewCoins(coins...))
 		msg, err := govtypes.NewMsgSubmitProposal(c, deposit, proposer.Addr)
 		if err != nil {
 			return
